@@ -17,7 +17,9 @@ LEVEL = "model_checking"
 KALPHA = (-1.0, 0.0, 0.5, 2.0)
 SALPHA = (-2.0, -0.5, 0.0, 0.5, 2.0)
 BOUNDS = {"none": (None, None), "min": (-0.5, None), "max": (None, 1.0), "both": (-0.5, 1.0),
-          "min0": (0.0, None), "max0": (None, 0.0), "both0": (0.0, 1.0)}
+          "min0": (0.0, None), "max0": (None, 0.0), "both0": (0.0, 1.0),
+          # both bounds on the same side of zero (midpoint != half range)
+          "bothpos": (1.0, 3.0), "bothneg": (-3.0, -1.0)}
 UNIT_BLOCK = 8192
 
 
@@ -35,7 +37,7 @@ def configs(tier, seed=0):
             for clip in (True, False):
               if quick and not clip and e > 6:
                 continue
-              if bname.endswith("0") and (not clip or (quick and e > 6)):
+              if (bname.endswith("0") or bname in ("bothpos", "bothneg")) and (not clip or (quick and e > 6)):
                 continue
               out.append(dict(L=L, dims=dims, terms=terms, mono=list(mono), bounds=bname, clip=clip))
   return alpha.rotate(out, seed)
